@@ -112,6 +112,57 @@ static bool impl_decode(Run &r, int f, const Bytes &frame, Bytes &out, std::stri
 	return ok;
 }
 
+// ---------------------------------------------------------------- real decoder, ONE decode_state over a growing stream
+// history: frame present -> message; poll with no further input (drained); two more frames appended at once -> message, message
+static int stream_call(int f, decode_state &st, uint8_t *&buf, size_t &n)
+{
+	for (int it = 0; it < 400; ++it) {
+		struct iovec vec; vec.iov_base = buf; vec.iov_len = n;
+		int code = LIB(decoders[f](&st, &vec, 1));
+		if (code != MissingBuffer || st.curr > n) return code;
+		uint8_t *nb = (uint8_t *) malloc(n + 8);
+		memcpy(nb, buf, st.curr); memset(nb + st.curr, 0xCC, 8); memcpy(nb + st.curr + 8, buf + st.curr, n - st.curr);
+		free(buf); buf = nb; n += 8; st.curr += 8;
+	}
+	return MissingBuffer;
+}
+static bool stream_decode(int f, const Bytes &frame, const Bytes &want, bool &drained, std::string &grp, std::string &why)
+{
+	size_t n = frame.size();
+	uint8_t *buf = (uint8_t *) malloc(n ? n : 1); memcpy(buf, frame.data(), n);
+	decode_state st;
+	bool ok = true;
+	auto next = [&](const char *which) -> bool {
+		size_t lastcurr = ~(size_t) 0;
+		for (int it = 0; it < 400; ++it) {
+			int code = stream_call(f, st, buf, n);
+			if (code < 0) { grp = "error"; why = fmt("%s: decoder reports error %d", which, code); return false; }
+			if (st.data.msg < 0) {
+				if (st.curr != lastcurr) { lastcurr = st.curr; continue; }
+				grp = "no-message"; why = fmt("%s: decoder delivers no message although the complete frame is present", which); return false;
+			}
+			if (st.data.pos + (size_t) st.data.msg > n) { grp = "no-message"; why = fmt("%s: decoded message range lies outside the buffer", which); return false; }
+			Bytes got(buf + st.data.pos, buf + st.data.pos + st.data.msg);
+			if (got != want) { grp = "wrong-bytes"; why = fmt("%s: decodes to {%s}", which, ref::hexs(got).c_str()); return false; }
+			return true;
+		}
+		grp = "no-message"; why = fmt("%s: decoder does not finish", which); return false;
+	};
+	ok = next("first frame of the stream");
+	if (ok) {
+		int code = stream_call(f, st, buf, n);      // nothing further available yet
+		drained = code == 0 && st.data.msg < 0;
+		size_t fs = frame.size();
+		uint8_t *nb = (uint8_t *) malloc(n + 2 * fs);
+		memcpy(nb, buf, n); memcpy(nb + n, frame.data(), fs); memcpy(nb + n + fs, frame.data(), fs);
+		free(buf); buf = nb; n += 2 * fs;
+		ok = next("frame arriving after a poll on drained input") && next("frame already waiting behind the previous one");
+	}
+	LIB(decoders[f](&st, 0, 0));
+	free(buf);
+	return ok;
+}
+
 struct Feat { bool rollover, inlined, pair, retry, split; };
 static void frame_features(int f, const Bytes &frame, const Bytes &m, Feat &ft)
 {
@@ -130,7 +181,7 @@ static void frame_features(int f, const Bytes &frame, const Bytes &m, Feat &ft)
 	(void) m; (void) dummy; (void) nx;
 }
 
-struct Counters { uint64_t exec, nontrivial, rollover, inlined, pair, retry, split, refused_zero, msgs; };
+struct Counters { uint64_t exec, nontrivial, rollover, inlined, pair, retry, split, refused_zero, msgs, midmsg, drained; };
 
 // ---------------------------------------------------------------- one execution
 static void body(Run &r, Counters &c, int f, int mode, const Family &fam, Ctx &x)
@@ -197,14 +248,25 @@ static void body(Run &r, Counters &c, int f, int mode, const Family &fam, Ctx &x
 			if (!pi++ && mv) LIB(arr.shift(0));
 		}
 		if (!fail && LIB(mpt_array_push(&arr, 0, 0)) < 0) { err = "frame termination refused"; fail = true; }
+		// the producer has already started the following message (none / one byte / several bytes) when the finished frames are read
+		uint64_t fol = fail ? 0 : x.choose(3);
+		if (fol) {
+			static const uint8_t F0[] = {'x', 0, 'y', 'z'}, F1[] = {'x', 'y', 'z'};
+			size_t fl = fol == 1 ? 1 : (f == ref::COMMAND ? sizeof F1 : sizeof F0);
+			if (LIB(mpt_array_push(&arr, fl, f == ref::COMMAND ? F1 : F0)) != (ssize_t) fl) { err = "start of the following message refused"; fail = true; }
+			else if (arr._state.scratch) ++c.midmsg;
+		}
 		if (!fail) {
 			span<const uint8_t> d = arr.data();
 			Bytes all; if (d.size() && d.begin()) all.assign(d.begin(), d.end());
 			if (all.size() < prefix.size() || !std::equal(prefix.begin(), prefix.end(), all.begin())) { r.violation(sc + "|frame|earlier-frame-changed", desc + ": the pending earlier frame {" + ref::hexs(prefix) + "} reads {" + ref::hexs(all) + "} after the next message"); return; }
 			frame.assign(all.begin() + prefix.size(), all.end());
+			// blocks of the following message that are already final are handed out as well (done counts them): the finished
+			// frame is what precedes them, up to and including its delimiter
+			if (fol) { Bytes::iterator z = std::find(frame.begin(), frame.end(), 0); if (z != frame.end()) frame.erase(z + 1, frame.end()); }
 			produced = true;
 		}
-		desc += fmt(" earlier-frame=%s shift(0)=%d", pre == 0 ? "none" : (pre == 1 ? "consumed" : "pending"), (int) mv);
+		desc += fmt(" earlier-frame=%s shift(0)=%d following-message-bytes=%d", pre == 0 ? "none" : (pre == 1 ? "consumed" : "pending"), (int) mv, (int) fol);
 	} else {
 		encode_state st;
 		size_t wlen = grant; uint8_t *win = (uint8_t *) malloc(wlen);
@@ -262,6 +324,15 @@ static void body(Run &r, Counters &c, int f, int mode, const Family &fam, Ctx &x
 	if (asan_error()) { r.violation(sc + "|decode|memory", desc + ": AddressSanitizer report while decoding {" + ref::hexs(frame) + "}"); return; }
 	if (!ok) { r.violation(sc + "|decode|no-message", desc + ": frame {" + ref::hexs(frame) + "}: " + why); return; }
 	if (got != want) { r.violation(sc + "|decode|wrong-bytes", desc + ": frame {" + ref::hexs(frame) + "} decodes to {" + ref::hexs(got) + "}"); return; }
+	{
+		bool drained = false; std::string grp; why.clear();
+		r.hint((sc + "|decode-stream").c_str());
+		bool sok = stream_decode(f, frame, want, drained, grp, why);
+		++r.transitions;
+		if (asan_error()) { r.violation(sc + "|decode-stream|memory", desc + ": AddressSanitizer report while decoding a stream of {" + ref::hexs(frame) + "} on one decode_state"); return; }
+		if (!sok) { r.violation(sc + "|decode-stream|" + grp, desc + ": stream of frames {" + ref::hexs(frame) + "} on one decode_state: " + why); return; }
+		if (drained) ++c.drained;
+	}
 	frame_features(f, frame, m, ft);
 	if (ft.rollover) ++c.rollover; if (ft.inlined) ++c.inlined; if (ft.pair) ++c.pair; if (ft.retry) ++c.retry; if (ft.split) ++c.split;
 	if (ft.rollover || ft.inlined || ft.pair || ft.retry || ft.split) ++c.nontrivial;
@@ -345,11 +416,13 @@ void mc_explore(Run &r, const std::string &job)
 	int f, mode; Family fam;
 	if (!parse_job(job, r.tier, f, mode, fam)) return;
 	Counters c = {};
-	for (const char *k : {"nontrivial", "rollover", "retry", "split"}) r.require(k);
+	for (const char *k : {"nontrivial", "rollover", "retry", "split", "drained_poll"}) r.require(k);
+	if (mode == 2 && f != ref::COMMAND) r.require("drain_mid_message");
 	dfs(r, [&](Ctx &x) { body(r, c, f, mode, fam, x); });
 	r.states += c.exec;
 	r.count("nontrivial", c.nontrivial); r.count("rollover", c.rollover); r.count("tail_inline", c.inlined); r.count("zero_pair", c.pair);
 	r.count("retry", c.retry); r.count("split", c.split); r.count("command_zero_refused", c.refused_zero);
+	r.count("drained_poll", c.drained); r.count("drain_mid_message", c.midmsg);
 }
 void mc_replay(Run &r, const std::string &job, const Vec &v)
 {
